@@ -2,7 +2,9 @@
 import copy
 import json
 
-from harness.core import Check, Violation, short
+import os
+
+from harness.core import Check, Violation, short, REPO, VERIF
 from harness import gen
 from hypothesis import strategies as st
 
@@ -678,6 +680,215 @@ def judge_update_bad(case):
     raise Violation("UpdateContext-accepts-malformed-argument", "%r" % (case,))
 
 
+# ---- coverage-guided fuzzing of the string-level functions (atheris) ------------------------------
+
+FUZZ_ALPH = "{}.:!ab x"
+FUZZ_CTXS = [{}, {"a": 1}, {"a": {"b": 0}}, {"a": {"b": {"a": "x"}}, "b": None}, {"b": [1], "x": {"a": ""}},
+             {"a": {"a": {"a": {"a": 5}}}}, {"a": "a", "b": "b"}, {"a": {"b": False}, "x": 2.5}]
+_SIMPLE = None
+
+
+FUZZ_TOKENS = ["{{", "}}", "a", "b", ".", "x", " ", "{", "}", ":", "!", "a.b", "{{a}}", "{{a.b}}", "_"]
+
+
+def _fuzz_decode(text):
+    """bytes -> (function selector, context, string). Structure-aware: templates are built from
+    tokens (double braces, keys, dots ...), paths mostly from the keys that exist at the current
+    level of the context, sometimes from str() of the scalar found there (the documented string
+    test of contains), sometimes from foreign tokens."""
+    raw = [ord(c) & 0xff for c in text]
+    raw = raw + [0, 0]
+    sel = raw[0] % 5
+    ctx = copy.deepcopy(FUZZ_CTXS[raw[1] % len(FUZZ_CTXS)])
+    body = raw[2:26]
+    if sel in (2, 3):
+        parts = []
+        cur = ctx
+        for b in body[:6]:
+            if b < 150 and isinstance(cur, dict) and cur:
+                k = sorted(cur)[b % len(cur)]
+                parts.append(k)
+                cur = cur[k]
+            elif b < 190 and not isinstance(cur, (dict, list)) and cur is not MISSING and "." not in str(cur):
+                parts.append(str(cur))
+                cur = MISSING
+            else:
+                parts.append(["a", "b", "x", "", "a b", "{", "0"][b % 7])
+                cur = cur.get(parts[-1], MISSING) if isinstance(cur, dict) else MISSING
+        s = ".".join(parts)
+    else:
+        s = "".join(FUZZ_TOKENS[b % len(FUZZ_TOKENS)] for b in body)
+    return sel, ctx, s
+
+
+def _simple_template(s):
+    """literals without braces and fields {{k.k...}} with non-empty components over [ab x]"""
+    import re
+    global _SIMPLE
+    if _SIMPLE is None:
+        _SIMPLE = re.compile(r"^(?:[ab x.:!]|\{\{[ab x]+(?:\.[ab x]+)*\}\})*$")
+    return bool(_SIMPLE.match(s))
+
+
+def _render_simple(s, ctx):
+    import re
+    def rep(m):
+        v = ref_get(ctx, m.group(1).split("."))
+        if v is MISSING:
+            raise KeyError(m.group(1))
+        return str(v)
+    return re.sub(r"\{\{([^{}]*)\}\}", rep, s)
+
+
+def fuzz_oracle(text):
+    """judge one fuzz input; raises Violation; returns classification"""
+    sel, ctx, s = _fuzz_decode(text)
+    has_empty = s == "" or any(p == "" for p in s.split("."))
+    snap = copy.deepcopy(ctx)
+    if sel == 0:
+        nested = _well_nested(s)
+        try:
+            fc = format_context(s)
+        except (LenaTypeError, LenaValueError):
+            return {"nontrivial": "{" in s, "classes": ["format:rejected"]}
+        except Exception as e:
+            if not nested:
+                return {"nontrivial": False, "classes": ["format:not-well-nested(skipped)"]}
+            raise Violation("format_context-creation-raises-" + type(e).__name__, "format_context(%r): %s" % (s, e))
+        simple = _simple_template(s)
+        try:
+            got = fc(ctx)
+        except LenaKeyError:
+            if simple:
+                try:
+                    _render_simple(s, snap)
+                except KeyError:
+                    return {"nontrivial": True, "classes": ["format:missing-key"]}
+                raise Violation("format_context-LenaKeyError-for-present-keys", "format_context(%r)(%r)" % (s, snap))
+            return {"nontrivial": True, "classes": ["format:keyerror"]}
+        except ValueError:
+            if simple and ":" not in s and "!" not in s:
+                raise Violation("format_context-ValueError-for-simple-template", "format_context(%r)(%r)" % (s, snap))
+            return {"nontrivial": True, "classes": ["format:valueerror-at-call"]}
+        except Exception as e:
+            if simple or (nested and ":" not in s and "!" not in s and "{{}}" not in s):
+                raise Violation("format_context-call-raises-" + type(e).__name__, "format_context(%r)(%r): %s" % (s, snap, e))
+            return {"nontrivial": False, "classes": ["format:other-exception-outside-domain"]}
+        if simple:
+            try:
+                want = _render_simple(s, snap)
+            except KeyError:
+                raise Violation("format_context-renders-absent-key", "format_context(%r)(%r) = %r" % (s, snap, got))
+            if got != want:
+                raise Violation("format_context-wrong-rendering", "format_context(%r)(%r) = %r, expected %r" % (s, snap, got, want))
+        if ctx != snap:
+            raise Violation("format_context-changes-context", "%r %r" % (s, snap))
+        return {"nontrivial": "{{" in s, "classes": ["format:rendered" + (":simple" if simple else "")]}
+    if sel == 1:
+        try:
+            lst = str_to_list(s)
+            d = str_to_dict(s, 7)
+        except (LenaTypeError, LenaValueError):
+            return {"nontrivial": False, "classes": ["str_to:rejected"]}
+        if not has_empty:
+            if lst != s.split("."):
+                raise Violation("str_to_list-differs-from-split", "%r -> %r" % (s, lst))
+            marker = object()
+            d = str_to_dict(s, marker)
+            if get_recursively(d, s) is not marker:
+                raise Violation("str_to_dict-round-trip", "%r -> %r" % (s, d))
+        return {"nontrivial": not has_empty and "." in s, "classes": ["str_to"]}
+    if sel == 2:
+        try:
+            got = get_recursively(ctx, s)
+        except LenaKeyError:
+            if not has_empty and ref_get(snap, s.split(".")) is not MISSING:
+                raise Violation("get_recursively-LenaKeyError-for-present-key", "get_recursively(%r, %r)" % (snap, s))
+            return {"nontrivial": True, "classes": ["get:absent"]}
+        except (LenaTypeError, LenaValueError):
+            return {"nontrivial": False, "classes": ["get:rejected"]}
+        if not has_empty:
+            want = ref_get(ctx, s.split("."))
+            if want is MISSING or got is not want:
+                raise Violation("get_recursively-wrong-item", "get_recursively(%r, %r) = %r" % (snap, s, got))
+        return {"nontrivial": not has_empty, "classes": ["get:present"]}
+    if sel == 3:
+        try:
+            got = contains(ctx, s)
+        except Exception as e:
+            if s == "":
+                return {"nontrivial": False, "classes": ["contains:empty-string(skipped)"]}
+            raise Violation("contains-raises", "contains(%r, %r): %s %s" % (snap, s, type(e).__name__, e))
+        if not has_empty:
+            path = s.split(".")
+            if len(path) == 1:
+                want = path[0] in snap
+            else:
+                parent = ref_get(snap, path[:-1])
+                want = False if parent is MISSING else (path[-1] in parent if isinstance(parent, dict) else str(parent) == path[-1])
+            if bool(got) != want:
+                raise Violation("contains-differs-from-reference", "contains(%r, %r) = %r, expected %r" % (snap, s, got, want))
+        return {"nontrivial": not has_empty and "." in s, "classes": ["contains"]}
+    # sel == 4: UpdateContext(subcontext, update) with string arguments: only Lena exceptions at creation
+    half = len(s) // 2
+    sub, upd_ = s[:half], s[half:]
+    try:
+        uc = UpdateContext(sub, upd_)
+    except (LenaTypeError, LenaValueError):
+        return {"nontrivial": True, "classes": ["update:rejected"]}
+    try:
+        res = uc((0, ctx))
+    except LenaKeyError:
+        return {"nontrivial": True, "classes": ["update:missing-key"]}
+    return {"nontrivial": True, "classes": ["update:applied"]}
+
+
+def fuzz_cases(tier):
+    """run the fuzzer, then hand every kept input and every crash to the judge"""
+    import shutil
+    import subprocess
+    import sys
+    import tempfile
+    try:
+        import atheris  # noqa
+    except ImportError:
+        yield {"text": "", "note": "atheris-not-installed"}
+        yield {"text": "\x00\x01{{a.b}}", "note": "atheris-not-installed"}
+        return
+    runs = 20000 if tier != "thorough" else 400000
+    seed = int(os.environ.get("VERIF_SEED", "1") or "1") or 1
+    d = tempfile.mkdtemp(prefix="lena-c08-fuzz-")
+    try:
+        corpus, crashes = os.path.join(d, "corpus"), os.path.join(d, "crashes")
+        os.makedirs(corpus)
+        os.makedirs(crashes)
+        # a few valid inputs from the test-suite next to the empty corpus
+        for i, t in enumerate(["\x00\x03\x0d\x0e\x0c", "\x02\x02\x00\x00", "\x03\x02\x00\x00\xa0", "\x04\x01\x02\x04\x03\x0c", ""]):
+            with open(os.path.join(corpus, "seed%d" % i), "wb") as f:
+                f.write(t.encode("latin-1"))
+        env = dict(os.environ)
+        env["VERIF_REPO"] = REPO
+        target = os.path.join(VERIF, "harness", "fuzz_c08.py")
+        p = subprocess.run([sys.executable, "-W", "ignore", target, corpus, crashes, "-runs=%d" % runs, "-seed=%d" % seed,
+                            "-max_len=40", "-print_final_stats=0", "-verbosity=0"],
+                           stdout=subprocess.PIPE, stderr=subprocess.STDOUT, env=env, timeout=3000)
+        seen = set()
+        for sub in (crashes, corpus):
+            for name in sorted(os.listdir(sub)):
+                with open(os.path.join(sub, name), "rb") as f:
+                    text = f.read().decode("latin-1")
+                if text in seen:
+                    continue
+                seen.add(text)
+                yield {"text": text, "from": os.path.basename(sub)}
+    finally:
+        shutil.rmtree(d, ignore_errors=True)
+
+
+def judge_fuzz(case):
+    return fuzz_oracle(case["text"])
+
+
 CHECKS = [
     Check("addressing", judge_addressing, strategy=lambda tier: addressing_case(), quick=3000, thorough=120000,
           rule="contexts depth<=3 over {a,b,c,x,y} x paths of length 0-4 biased to present / absent-at-last-step / through-a-scalar x four key notations; "
@@ -699,4 +910,9 @@ CHECKS = [
           rule="DeleteContext with str/list/tuple keys against ref_del, paths through scalars and absent keys ignored."),
     Check("delete_bad", judge_delete_bad, strategy=strat_delete_bad, quick=60, thorough=300,
           rule="malformed DeleteContext keys raise LenaTypeError/LenaValueError."),
+    Check("fuzz_parsers", judge_fuzz, cases=fuzz_cases, shards=1,
+          rule="coverage-guided fuzzing (atheris / libFuzzer, 20 000 executions quick, 400 000 thorough, -seed=VERIF_SEED, empty corpus plus five valid inputs) of format_context, str_to_list / str_to_dict, "
+               "get_recursively, contains and UpdateContext; bytes are decoded structurally (templates from tokens such as double braces, keys and dots; paths from the keys present in one of eight contexts, "
+               "str() of the scalar found, or foreign tokens), with the oracle inside the target; the cases counted here are the inputs libFuzzer kept "
+               "(each increased coverage) and any crash, re-judged in-process without the fuzzer. Non-trivial = a template with a field / a dotted path."),
 ]
